@@ -314,8 +314,31 @@ def r5_parse_only_annotations(run, F):
            "the path of an import is printed between quotes without escaping: `import \"a\\\\b.pn\";` is rebuilt as `import \"a\\b.pn\";`")
 
 
+def r6_location_blind(run, F):
+    """"A second rebuild produces byte-identical text": the tree parsed from rebuilt text equals the first tree only *up to
+    locations*, so the text may not depend on any location.  No body of the rebuilder reads a value whose type mentions
+    common::Location (typed HIR: field reads, pattern bindings, locals, call results); the patterns there bind every
+    location field to `_`."""
+    n = 0
+    for p, b in sorted(F.lib.bodies.items()):
+        if "hir" not in b or not F.rel(b["file"]).endswith("alpha/rebuilder.rs"):
+            continue
+        n += 1
+        hits = []
+        for x in walk(b["hir"]):
+            t = x.get("t")
+            ty = F.lib.ty(t) if isinstance(t, int) else None
+            if ty and "Location" in str(ty).replace("TokenLocation", "Location") and x.get("k") in ("Field", "Path", "Bind", "MethodCall", "Call"):
+                hits.append(x)
+        run.ob("R6-LOCATION-BLIND", b["npath"], not hits, F.where(b, hits[0]) if hits else F.where(b),
+               "%s reads %d value(s) of a location type (first: %s %s): rebuilt text would depend on where the source stood, and the second rebuild "
+               "sees other locations than the first" % (b["npath"], len(hits), hits[0].get("k") if hits else "", (hits[0].get("name") or hits[0].get("res") or "") if hits else ""))
+    run.floor("R6-LOCATION-BLIND", 20, "bodies of src/alpha/rebuilder.rs (23 counted)")
+
+
 def check(run):
     F = run.facts("B")
+    r6_location_blind(run, F)
     r1_spellings(run, F)
     r2_completeness(run, F)
     r3_literals(run, F)
@@ -324,6 +347,6 @@ def check(run):
     if run.tier == "thorough":
         FA = run.facts("A")
         run.key_prefix = "cfgA:"
-        for fn in (r1_spellings, r2_completeness, r3_literals, r4_indentation):
+        for fn in (r1_spellings, r2_completeness, r3_literals, r4_indentation, r6_location_blind):
             fn(run, FA)
         run.key_prefix = ""
